@@ -141,3 +141,56 @@ def explore(factory, alphabet, enabled, workers=None, max_states=200000,
 
 def path_actions(graph, alphabet, node_1based):
     return [alphabet[i] for i in graph['paths'][node_1based - 1]]
+
+
+# ------------------------------------------------------------ random walks
+def _walk(task):
+    """One seeded random history on a fresh object."""
+    import random
+    seed, length = task
+    rng = random.Random(seed)
+    _AD.reset()
+    st = _AD.project()
+    steps = []
+    for _ in range(length):
+        en = [i for i, a in enumerate(_ALPHA) if _ENABLED(st, a)]
+        if not en:
+            break
+        ai = rng.choice(en)
+        out = _AD.apply(_ALPHA[ai])
+        st2 = _AD.project()
+        steps.append((ai, out, st2))
+        st = st2
+    return steps
+
+
+def random_walks(factory, alphabet, enabled, n, length, seed, workers=None):
+    """A forest of n random histories (scope beyond the exhaustive bound):
+    same graph format, every walk is a path from node 1."""
+    import concurrent.futures as cf
+    t0 = time.time()
+    workers = workers or min(12, os.cpu_count() or 1)
+    ad = factory()
+    ad.reset()
+    init = ad.project()
+    if hasattr(ad, 'close'):
+        ad.close()
+    nodes = [init]
+    out = [[]]
+    edges = []
+    ctx = mp.get_context('fork')
+    with cf.ProcessPoolExecutor(workers, mp_context=ctx, initializer=_init,
+                                initargs=(factory, alphabet,
+                                          enabled)) as pool:
+        tasks = [(seed * 1000003 + k, length) for k in range(n)]
+        for steps in pool.map(_walk, tasks, chunksize=max(1, n // (workers * 4))):
+            cur = 0
+            for ai, o, st in steps:
+                nodes.append(st)
+                out.append([])
+                edges.append({'src': cur + 1, 'dst': len(nodes),
+                              'a': alphabet[ai], 'ai': ai + 1, 'out': o})
+                out[cur].append(len(edges))
+                cur = len(nodes) - 1
+    return {'nodes': nodes, 'out': out, 'edges': edges, 'walks': n,
+            'wall': time.time() - t0}
